@@ -154,6 +154,33 @@ class Closure(Callable_):
         self.ex = defining_exec
 
 
+class ClassCtor(Callable_):
+    """Constructor of a repo class whose __init__ is verified by its own unit: the instance is the opaque term
+    new_<Class>(args..., kwargs-pack).  (A caller is checked against the constructor's contract, not its body.)"""
+
+    def __init__(self, name, local=False, kwnames=()):
+        self.name = name
+        self.local = local
+        self.kwnames = tuple(kwnames)
+        self.fns = {}
+
+    def term(self, ex, args, kwargs):
+        kwargs = dict(kwargs)
+        pack = kwargs.pop('**', None)
+        a = [box(ex, x) for x in args]
+        names = sorted(kwargs)
+        a += [box(ex, kwargs[k]) for k in names]
+        a.append(pack.val if isinstance(pack, KwPack) else NOKW)
+        key = (len(args), tuple(names))
+        if key not in self.fns:
+            nm = f'new_{self.name}' + (f'_{len(args)}' if True else '') + ''.join('_' + k for k in names)
+            self.fns[key] = z3.Function(nm, *([Val] * len(a)), Val)
+        return self.fns[key](*a)
+
+    def invoke(self, ex, st, args, kwargs, node):
+        return [('ok', st, self.term(ex, args, kwargs))]
+
+
 class ExcClass:
     """An exception class object (known class)."""
 
@@ -180,6 +207,7 @@ class Module:
         return f'<module {self.name}>'
 
 
+NOKW = z3.Const('NOKW', Val)                    # the empty **kwargs pack
 eargs = z3.Function('eargs', Val, Val)          # args tuple of an exception value
 ecause = z3.Function('ecause', Val, Val)        # __cause__
 ecode = z3.Function('ecode', Val, Val)          # SystemExit.code
@@ -272,6 +300,7 @@ class Exec:
         self.globals = parent.globals if parent else {}
         self.sym_models = parent.sym_models if parent else {}
         self.ignored = parent.ignored if parent else []
+        self.reached = parent.reached if parent else set()
         self.npaths = 0
         loops = [x for x in ast.walk(fn_node) if isinstance(x, (ast.For, ast.AsyncFor, ast.While))]
         # syntactic ordinal, nested functions excluded
@@ -938,6 +967,7 @@ class Exec:
             return [('normal', st, None)]
         st = st.fork()
         st.trace.append(n.lineno)
+        self.reached.add(n.lineno)
         m = getattr(self, 'st_' + type(n).__name__, None)
         if m is None:
             raise Unsupported(f'statement {type(n).__name__} at line {n.lineno}')
@@ -1106,7 +1136,11 @@ class Exec:
             i = z3.If(i < 0, n + i, i)
             new = z3.Concat(z3.SubSeq(base, 0, i), z3.Unit(box(self, v)), z3.SubSeq(base, i + 1, n - i - 1))
             st = st.fork()
+            st.assume(i >= 0, i < n)
             st.env[target.value.id] = new
+            hook = getattr(self.unit, 'on_seq_store', None)
+            if hook:
+                hook(self, st, base, i, box(self, v), new)
             return [('ok', st, None)]
         raise Unsupported(f'item store `{ast.unparse(target)}`')
 
@@ -1141,7 +1175,9 @@ class Exec:
             r = hook(self, st, n)
             if r is not None:
                 return r
-        raise Unsupported(f'class definition {n.name}')
+        # a local class: instances are opaque values; its methods are separate verification units
+        st.env[n.name] = ClassCtor(n.name, local=True)
+        return [('normal', st, None)]
 
     # -- try / with
     def exc_match(self, st, exc, type_node):
@@ -1257,6 +1293,27 @@ class Exec:
                 stack.extend(ast.iter_child_nodes(x))
         return out
 
+    def mutated_names(self, body_nodes):
+        """locals mutated in place: `name.method(...)` receivers and `name[...] = ...` targets."""
+        out = set()
+        for top in body_nodes:
+            stack = [top]
+            while stack:
+                x = stack.pop()
+                if isinstance(x, (ast.FunctionDef, ast.AsyncFunctionDef, ast.Lambda, ast.ClassDef)):
+                    continue
+                if isinstance(x, ast.Call) and isinstance(x.func, ast.Attribute) and isinstance(x.func.value, ast.Name):
+                    out.add(x.func.value.id)
+                if isinstance(x, ast.Subscript) and isinstance(x.ctx, (ast.Store, ast.Del)) and isinstance(x.value, ast.Name):
+                    out.add(x.value.id)
+                if isinstance(x, ast.Call):
+                    # a by-value list passed to a function that may mutate it (e.g. random.shuffle(buffer))
+                    for a in x.args:
+                        if isinstance(a, ast.Name):
+                            out.add(a.id)
+                stack.extend(ast.iter_child_nodes(x))
+        return out
+
     def havoc_for_loop(self, st, n, sp, body_nodes, first):
         """Loop cut: havoc everything the loop may modify.  `first` selects the first-iteration variant for
         locals assigned only inside the loop (they are UNBOUND then) vs an arbitrary older value later."""
@@ -1282,6 +1339,12 @@ class Exec:
                     h.env[nm] = fresh(nm, sp.local_types[nm])
                 else:
                     raise Unsupported(f'loop rebinding of model-level local `{nm}`')
+        for nm in sorted(self.mutated_names(body_nodes) - names):
+            cur = h.env.get(nm)
+            if nm in sp.keep:
+                continue
+            if is_z3(cur) and cur.sort() == SeqV:
+                h.env[nm] = fresh(nm, SeqV)       # list held by value and mutated in place inside the loop
         for g, v in list(h.ghost.items()):
             if g.startswith('#'):
                 continue
@@ -1461,17 +1524,26 @@ class SeqMethod:
         self.target, self.name, self.seq = target_node, name, seq
 
     def call(self, ex, st, args, kwargs, node):
-        if not isinstance(self.target, ast.Name):
-            raise Unsupported(f'list method on non-local `{ast.unparse(self.target)}`')
-        nm = self.target.id
-        st = st.fork()
         if self.name == 'append':
-            st.env[nm] = z3.Concat(self.seq, z3.Unit(box(ex, args[0])))
+            newv = z3.Concat(self.seq, z3.Unit(box(ex, args[0])))
+            hook = getattr(ex.unit, 'on_seq_append', None)
+            if hook:
+                st = st.fork()
+                hook(ex, st, self.seq, box(ex, args[0]), newv)
+        elif self.name == 'extend':
+            newv = z3.Concat(self.seq, as_seq(ex, st, args[0]))
+        else:
+            raise Unsupported(f'list.{self.name}')
+        if isinstance(self.target, ast.Name):
+            st = st.fork()
+            st.env[self.target.id] = newv
             return [('ok', st, NONE)]
-        if self.name == 'extend':
-            st.env[nm] = z3.Concat(self.seq, as_seq(ex, st, args[0]))
-            return [('ok', st, NONE)]
-        raise Unsupported(f'list.{self.name}')
+        if isinstance(self.target, ast.Attribute):
+            # list held in an attribute of a modelled object (by value; aliasing of lists is outside the model)
+            store = ast.Attribute(value=self.target.value, attr=self.target.attr, ctx=ast.Store())
+            ast.copy_location(store, self.target)
+            return [(k, s, NONE if k == 'ok' else v) for k, s, v in ex.assign(store, newv, st)]
+        raise Unsupported(f'list method on `{ast.unparse(self.target)}`')
 
 
 class SeqIter:
